@@ -34,6 +34,14 @@ fn main() {
             }
         }
     }
+    // tanh-sinh and Gauss-Legendre on intervals that do not start at 0 (smooth integrands: the estimators are reliable there)
+    for (name, f, a, b, exact) in funcs.iter() {
+        if exact.is_nan() { continue; }
+        for tol in [1e-5, 1e-8] {
+            match integrate(*a, *b, |x| f(x), tol) { Ok(v) => if (v - exact).abs() > 100.0 * tol { found.push(format!("integrate (tanh-sinh) {name} tol={tol:e}: error {:e}", (v - exact).abs())); }, Err(e) => found.push(format!("integrate (tanh-sinh) {name} tol={tol:e}: Err({e})")) }
+        }
+    }
+    match integrate(1.0, 2.0, |x: f64| x * x, 1e-6) { Ok(v) => if (v - 7.0 / 3.0).abs() > 1e-4 { found.push(format!("integrate (tanh-sinh) x^2 on [1,2]: {v}")); }, Err(e) => found.push(format!("integrate (tanh-sinh) x^2 on [1,2]: Err({e})")) }
     // validation
     if integrate(2.0, 1.0, |x: f64| x, 1e-6).is_ok() { found.push("integrate accepted a reversed interval".into()); }
     // hard bound on polynomials of degree <= 5 (the estimator is reliable there): the error of an Ok result stays within 2 tol,
